@@ -122,6 +122,10 @@ pub fn corpus_programs() -> Vec<String> {
     out
 }
 
+pub fn directed_corpus() -> Vec<(String, String)> {
+    directed()
+}
+
 fn directed() -> Vec<(String, String)> {
     let mut v: Vec<(&str, String)> = vec![
         ("zero-divisor", "1 / 0".into()),
